@@ -89,11 +89,15 @@ func (s *Service) submitAttestations(ctx context.Context,
 	_, address := s.serviceInfo(ctx, submitter)
 	started := time.Now()
 	_, err := util.Scatter(len(attestations), int(s.processConcurrency), func(offset int, entries int, _ *sync.RWMutex) (interface{}, error) {
-		return nil, submitter.SubmitAttestations(ctx, attestations[offset:offset+entries])
+		// Classify the error of each batch separately; otherwise an allowable error
+		// from one batch can mask a real error from another.
+		err := submitter.SubmitAttestations(ctx, attestations[offset:offset+entries])
+		if err != nil {
+			err = s.handleAttestationsError(ctx, submitter, err)
+		}
+
+		return nil, err
 	})
-	if err != nil {
-		err = s.handleAttestationsError(ctx, submitter, err)
-	}
 
 	s.clientMonitor.ClientOperation(address, "submit attestations", err == nil, time.Since(started))
 	if err != nil {
